@@ -88,11 +88,14 @@ def gen_bound_script(rng):
         L.append('clearfail')
         L.append('autoquiesce 1')
         L.append('quiesce')
-        for _ in range(rng.randrange(1, 4)):
+        # no further client action is needed for the bytes that landed during the sync (finding F13, repaired): half of
+        # the scripts measure right here
+        for _ in range(rng.choice([0, 0, 1, 2, 3])):
             w(rng.choice([5, 100]))
             L.append('quiesce')
         L.append('#BOUND')
         L.append('truedirty')
+        L.append('dirty')
     L.append('fsync')
     L.append('close')
     return '\n'.join(L) + '\n'
@@ -174,8 +177,7 @@ def oracle(lines, io, spec=None):
             if prev == 'fsync' and io[i - 1] == 'fsync ok' and d != 0:
                 fails.append('[F8] line %d: %d un-synced bytes remain after an explicit fsyncdata (limit %d)' % (i, d, limit))
             elif d > limit:
-                tag = '[F2] ' if any(x == 'W Err Index' or x == 'D Err Index' for x in io[:i]) else '[F13] '
-                fails.append((tag + 'line %d after `%s`: %d un-synced bytes exceed the limit %d with no sync pending') % (i, last_op, d, limit))
+                fails.append('line %d after `%s`: %d un-synced bytes exceed the limit %d with no sync pending' % (i, last_op, d, limit))
         elif l == 'truedirty_all' and o.startswith('truedirty_all') and i >= 2 and lines[i - 1].startswith('nop closed=') and \
                 io[i - 3].startswith('overlap close_active ok'):
             ids = lines[i - 1].split('=')[1].split(',')
